@@ -394,4 +394,14 @@ Extra ==
     \* a struct written map-style (what #[serde(flatten)] generates), in and out of order
     <<[c |-> "structmap", hint |-> FALSE, fields |-> << <<"b", [c |-> "str", b |-> <<120>>]>>, <<"a", Iv(1)>> >>],
       RecNamed("R", "R", <<[name |-> "a", type |-> [k |-> "int"]], [name |-> "b", type |-> [k |-> "string"]]>>)>> }
+  \* a unit-only enum whose schema lists the symbols in ANOTHER order than the Rust type declares the variants
+  \* (the mapping is by symbol): every variant, plain and inside an option / array / record field
+  \cup LET ES == [k |-> "enum", name |-> "Suit", short |-> "Suit", symbols |-> <<"Clubs", "Diamonds", "Hearts", "Spades">>]
+           UV(i, v) == [c |-> "unit_variant", name |-> "Suit", idx |-> i, variant |-> v]
+           Rust == <<"Spades", "Hearts", "Diamonds", "Clubs">>
+       IN UNION { { <<UV(i - 1, Rust[i]), ES>>,
+                    <<[c |-> "some", v |-> UV(i - 1, Rust[i])], Un(<<[k |-> "null"], ES>>)>>,
+                    <<[c |-> "seq", hint |-> TRUE, items |-> <<UV(i - 1, Rust[i]), UV(0, Rust[1])>>], [k |-> "array", items |-> ES]>>,
+                    <<[c |-> "struct", name |-> "Card", len |-> 1, fields |-> << <<"suit", UV(i - 1, Rust[i])>> >>],
+                      RecNamed("Card", "Card", <<[name |-> "suit", type |-> ES]>>)>> } : i \in 1..4 }
 =============================================================================
